@@ -596,7 +596,6 @@ fn run(case: &Case, ctx: &mut Ctx) {
         }
     };
 
-    record_inflight(case);
     let txt = match serialize(case, &input) {
         Err(p) => {
             let sig = if ana.seed_without_parent() { "jsonld/list-seed-without-parent".to_string() } else { format!("jsonld/panic-serialize/{}", generic()) };
@@ -783,6 +782,12 @@ fn run(case: &Case, ctx: &mut Ctx) {
 }
 
 impl Check for C12 {
+    fn stall_secs(_tier: Tier) -> Option<u64> {
+        Some(60)
+    }
+    fn crash_trigger(case: &Case) -> String {
+        crash_trigger_of(case)
+    }
     type Case = Case;
     const ID: &'static str = "C12";
     fn rule() -> String {
@@ -819,141 +824,26 @@ impl Check for C12 {
 // culprit and reports it as a violation with a replay file. A child that cannot be started or
 // a crash that does not reproduce is "inconclusive" (exit 2), never a violation.
 
-fn inflight_dir() -> std::path::PathBuf {
-    verif_root().join("replays").join(".inflight-C12")
-}
-fn record_inflight(case: &Case) {
-    use std::sync::atomic::{AtomicUsize, Ordering};
-    static NEXT: AtomicUsize = AtomicUsize::new(0);
-    thread_local! { static SLOT: usize = NEXT.fetch_add(1, Ordering::Relaxed); }
-    if std::env::var_os("VCHECK_C12_SUPERVISED").is_none() {
-        return;
-    }
-    let slot = SLOT.with(|s| *s);
-    let _ = std::fs::write(inflight_dir().join(format!("{slot}.json")), serde_json::json!({ "case": case }).to_string());
-}
-
-/// Address-space limit for the supervised children: a serializer that walks a cyclic chain
-/// "blindly" allocates without bound for a ten-quad input; with the limit the allocation fails,
-/// the process aborts, and the supervisor attributes the abort to the in-flight case.
-const CHILD_AS_LIMIT: u64 = 16 << 30;
-fn limited(cmd: &mut std::process::Command) -> &mut std::process::Command {
-    use std::os::unix::process::CommandExt;
-    unsafe {
-        cmd.pre_exec(|| {
-            let lim = libc::rlimit { rlim_cur: CHILD_AS_LIMIT, rlim_max: CHILD_AS_LIMIT };
-            libc::setrlimit(libc::RLIMIT_AS, &lim);
-            Ok(())
-        })
-    }
-}
-
 pub fn main(opts: &Opts) -> i32 {
-    if opts.replay.is_some() || std::env::var_os("VCHECK_C12_SUPERVISED").is_some() {
-        return drive::<C12>(opts);
-    }
-    let dir = inflight_dir();
-    let _ = std::fs::remove_dir_all(&dir);
-    if std::fs::create_dir_all(&dir).is_err() {
-        return drive::<C12>(opts);
-    }
-    let exe = match std::env::current_exe() {
-        Ok(e) => e,
-        Err(_) => return drive::<C12>(opts),
-    };
-    let mut args: Vec<String> = vec!["--worker".into(), "C12".into(), "--tier".into(), opts.tier.name().into(), "--seed".into(), opts.seed.to_string()];
-    if let Some(n) = opts.cases_override {
-        args.push("--cases".into());
-        args.push(n.to_string());
-    }
-    let status = limited(std::process::Command::new(&exe).args(&args).env("VCHECK_C12_SUPERVISED", "1")).status();
-    let code = match status {
-        Err(e) => {
-            println!("INCONCLUSIVE: cannot start the supervised run: {e}");
-            return 2;
-        }
-        Ok(st) => st.code(),
-    };
-    if let Some(c @ (0 | 1 | 2)) = code {
-        let _ = std::fs::remove_dir_all(&dir);
-        return c;
-    }
-    // the child was killed (stack overflow / abort): find the culprit among the in-flight cases
-    println!("C12: the run was killed ({:?}); replaying the in-flight cases in fresh processes", code);
-    let mut files: Vec<_> = std::fs::read_dir(&dir).map(|rd| rd.filter_map(|e| e.ok()).map(|e| e.path()).collect()).unwrap_or_default();
-    files.sort();
-    let mut found = 0;
-    let mut seen_sigs = BTreeSet::new();
-    for f in files {
-        let st = limited(std::process::Command::new(&exe).arg("C12").arg("--replay").arg(&f).env("VCHECK_C12_SUPERVISED", "1")).output();
-        let killed = matches!(&st, Ok(o) if !matches!(o.status.code(), Some(0 | 1 | 2)));
-        if !killed {
-            continue;
-        }
-        let case: serde_json::Value = std::fs::read_to_string(&f).ok().and_then(|t| serde_json::from_str::<serde_json::Value>(&t).ok()).map(|v| v["case"].clone()).unwrap_or_default();
-        let trig = serde_json::from_value::<Case>(case.clone())
-            .map(|c| {
-                let rep: Vec<MQ> = crate::gen::dedup(c.quads.iter().filter(|q| representable(q)).cloned().collect());
-                let a = analyse(&rep);
-                if a.seed_without_parent() {
-                    "list-seed-without-parent"
-                } else if a.nested_list() {
-                    "nested-list"
-                } else if a.has_list_node() {
-                    "list-node"
-                } else {
-                    "plain"
-                }
-            })
-            .unwrap_or("plain");
-        if !seen_sigs.insert(trig) {
-            continue;
-        }
-        let out = verif_root().join("replays").join(format!("C12-{}-crash{found}.json", opts.seed));
-        let rf = ReplayFile {
-            property: "C12".into(),
-            signature: format!("jsonld/process-killed/{trig}"),
-            detail: "serialising or parsing this case kills the process (stack overflow or abort) instead of returning".into(),
-            case,
-        };
-        let _ = std::fs::write(&out, serde_json::to_string_pretty(&rf).unwrap_or_default());
-        println!("VIOLATION property=C12 replay={}", out.display());
-        println!("  signature: {}", rf.signature);
-        println!("  | {}", rf.detail);
-        found += 1;
-    }
-    let _ = std::fs::remove_dir_all(&dir);
-    if found > 0 {
-        1
-    } else {
-        println!("INCONCLUSIVE: the supervised run was killed but no in-flight case reproduces it");
-        2
-    }
+    // crash supervision is provided by the engine (`engine::supervise`)
+    drive::<C12>(opts)
 }
 
-/// `vcheck --worker C12 --tier T --seed N [--cases N]`: the supervised run itself
-pub fn worker(args: &[String]) -> i32 {
-    let mut opts = Opts { tier: Tier::Quick, seed: 20261003, replay: None, cases_override: None };
-    let mut i = 0;
-    while i < args.len() {
-        match args[i].as_str() {
-            "--tier" => {
-                i += 1;
-                if args.get(i).map(|s| s == "thorough").unwrap_or(false) {
-                    opts.tier = Tier::Thorough;
-                }
-            }
-            "--seed" => {
-                i += 1;
-                opts.seed = args.get(i).and_then(|s| s.parse().ok()).unwrap_or(opts.seed);
-            }
-            "--cases" => {
-                i += 1;
-                opts.cases_override = args.get(i).and_then(|s| s.parse().ok());
-            }
-            _ => {}
-        }
-        i += 1;
+pub fn crash_trigger_of(c: &Case) -> String {
+    let rep: Vec<MQ> = crate::gen::dedup(c.quads.iter().filter(|q| representable(q)).cloned().collect());
+    let a = analyse(&rep);
+    if a.seed_without_parent() {
+        "list-seed-without-parent"
+    } else if a.nested_list() {
+        "nested-list"
+    } else if a.has_list_node() {
+        "list-node"
+    } else {
+        "plain"
     }
-    drive::<C12>(&opts)
+    .into()
+}
+
+pub fn worker(_args: &[String]) -> i32 {
+    2
 }
